@@ -14,6 +14,7 @@ import (
 	"github.com/smart-core-os/sc-api/go/types"
 
 	"github.com/smart-core-os/sc-golang/internal/minibus"
+	"github.com/smart-core-os/sc-golang/internal/simhook"
 )
 
 type Collection struct {
@@ -50,6 +51,7 @@ func (c *Collection) Get(id string, opts ...ReadOption) (proto.Message, bool) {
 
 	readConfig := ComputeReadConfig(opts...)
 
+	simhook.BeforeRLock("collection.get", &c.mu)
 	c.mu.RLock()
 	defer c.mu.RUnlock()
 
@@ -65,6 +67,7 @@ func (c *Collection) Get(id string, opts ...ReadOption) (proto.Message, bool) {
 func (c *Collection) List(opts ...ReadOption) []proto.Message {
 	readConfig := ComputeReadConfig(opts...)
 
+	simhook.BeforeRLock("collection.list", &c.mu)
 	c.mu.RLock()
 	defer c.mu.RUnlock()
 	tmp := c.itemSlice(readConfig)
@@ -155,6 +158,7 @@ func (c *Collection) Update(id string, msg proto.Message, opts ...WriteOption) (
 		changeType = types.ChangeType_ADD
 		oldValue = nil
 	}
+	simhook.Yield("collection.publish")
 	c.bus.Send(context.TODO(), &CollectionChange{
 		Id:         id,
 		ChangeTime: writeRequest.updateTime(c.clock),
@@ -176,6 +180,7 @@ func (c *Collection) Delete(id string, opts ...WriteOption) (proto.Message, erro
 
 	args := ComputeWriteConfig(opts...)
 	// Read lock first, we don't want to hold the lock when we pass control to callback functions
+	simhook.BeforeRLock("collection.delete.read", &c.mu)
 	c.mu.RLock()
 	oldVal, exists := c.byId[id]
 	c.mu.RUnlock()
@@ -196,6 +201,7 @@ func (c *Collection) Delete(id string, opts ...WriteOption) (proto.Message, erro
 			return oldVal.body, ExpectedValuePreconditionFailed
 		}
 
+		simhook.BeforeLock("collection.delete.commit", &c.mu)
 		c.mu.Lock()
 		oldVal2, exists2 := c.byId[id]
 		if oldVal2 != oldVal || exists2 != exists {
@@ -312,11 +318,13 @@ func (c *Collection) PullID(ctx context.Context, id string, opts ...ReadOption) 
 func (c *Collection) onUpdate(ctx context.Context, config *ReadRequest) (<-chan any, []idItem) {
 	var res []idItem
 	if !config.UpdatesOnly {
+		simhook.BeforeRLock("collection.sub.snapshot", &c.mu)
 		c.mu.RLock()
 		defer c.mu.RUnlock()
 		res = c.itemSlice(config)
 	}
 
+	simhook.Yield("collection.sub.listen")
 	ch := c.bus.Listen(ctx)
 	if !config.Backpressure {
 		ch = mergeCollectionExcess(ch)
